@@ -10,7 +10,8 @@ from tools.manifest_table import CHECKS, NOT_APPLICABLE  # noqa: E402
 props = [json.loads(l)["id"] for l in (V / "properties.jsonl").read_text().splitlines() if l.strip()]
 # rules added after the seeded rounds (DESIGN.md section 9.6), appended to the level text of the properties that run them
 TRUTHY = " Accessor level: the nodata value is tested with `is None`, never for truth, and an explicit argument is replaced only when it is None (R-TRUTHY); " \
-         "the data argument of each site is the accessor's object through value-preserving steps only (R-BIND provenance)."
+         "the data argument of each site is the accessor's object through value-preserving steps only (R-BIND provenance); the accessor methods read no state " \
+         "stored on the accessor besides `_obj` (R-STATELESS: xarray caches accessors per object)."
 EXTRA = {
     "C02": TRUTHY + " The smoothers never store into their input series (R-READONLY).",
     "C03": TRUTHY, "C04": TRUTHY, "C05": TRUTHY + " The GCV kernels never store into their input series (R-READONLY).",
@@ -23,11 +24,11 @@ EXTRA = {
     "C12": " No gufunc signature declares a contiguous layout (R-LAYOUT: strided views are passed to the inner loops).",
     "C13": " No gufunc signature declares a contiguous layout (NB-LAYOUT); prange iterations share no written state (NB-PRANGE).",
     "C15": TRUTHY + " The time-first arm labels its result with the remaining dims in order and every coordinate but time.",
-    "C16": " The NaN->nodata substitution reaches both kernel sites unconditionally.",
+    "C16": " The NaN->nodata substitution reaches both kernel sites unconditionally; the result is labelled (first dim and its coordinate, zone ids, [mean, valid]); R-STATELESS.",
     "C17": TRUTHY + " mean_grp accessor: group ids are converted to the kernel's declared element type, num_groups is the number of distinct ids, label length is validated; "
            "the value scattered for a group is defined in that group's own iteration (R-LOOPCARRY).",
-    "C19": " begin/end labels are tested with `is None`, never for truth (0 is a legitimate label).",
-    "C20": " The gufunc signature declares arbitrary strides for every array (R-LAYOUT).",
+    "C19": " begin/end labels are tested with `is None`, never for truth (0 is a legitimate label) and looked up exactly as given; R-STATELESS (no cached index).",
+    "C20": " The gufunc signature declares arbitrary strides for every array (R-LAYOUT); ws2d is one straight-line algorithm; R-STATELESS.",
 }
 checks = []
 for pid in props:
